@@ -14,13 +14,16 @@ CONSTANTS MaxLen      \* bound on the list length
 Pairs == {
   <<"A","=","1">>, <<"A","=","2">>, <<"A","B","=","3">>, <<"A","_","B","=","4">>,
   <<"=","x">>, <<"A">>, <<"B","=">>, <<"A","=","b","=","c">>, <<"a","=","1">>,
-  <<>>, <<"=">>, <<"Z","=","=">>, <<"A","B">>, <<"A","A","=","5">>, <<"A","=">> }
+  <<>>, <<"=">>, <<"Z","=","=">>, <<"A","B">>, <<"A","A","=","5">>, <<"A","=">>,
+  \* a name that extends another one with a byte that sorts before '=' (digits, '.', '-')
+  <<"A","1","=","x">>, <<"A",".","=","y">> }
 
 \* Names queried with Get: every name above, prefixes/extensions of each other, the
 \* empty name and names that contain '=' (which can never be set).
 Queries == {
   <<"A">>, <<"A","B">>, <<"A","_","B">>, <<"B">>, <<"a">>, <<"Z">>, <<>>, <<"A","=">>,
-  <<"A","=","b">>, <<"A","A">>, <<"A","A","A">>, <<"C">>, <<"Z","=">>, <<"=">>, <<"@">> }
+  <<"A","=","b">>, <<"A","A">>, <<"A","A","A">>, <<"C">>, <<"Z","=">>, <<"=">>, <<"@">>,
+  <<"A","1">>, <<"A",".">>, <<"A","1","1">> }
 
 VARIABLES list,   \* the pairs given so far
           m       \* contract: function from valid names to values
